@@ -21,6 +21,7 @@ pub enum IggyError {
     InvalidIdentifier,
     InvalidTopicSize,
     StaleClient,
+    TooManyPartitions,
     Unauthenticated,
     Unauthorized,
     StreamIdNotFound(u32),
@@ -291,4 +292,25 @@ pub open spec fn topic_unchanged(a: &Topic, b: &Topic) -> bool {
 // identifiers are validated when decoded (sdk Identifier::from_bytes / validate): a numeric identifier is 4 bytes long
 pub open spec fn ident_valid(ident: &Identifier) -> bool {
     ident.kind == IdKind::Numeric ==> ident.length == 4
+}
+
+// --- partitions: construction is another subsystem; the clock is arbitrary (A-clock) ---
+pub struct IggyTimestamp(pub u64);
+impl IggyTimestamp {
+    #[verifier::external_body]
+    pub fn now() -> (r: IggyTimestamp) { unimplemented!() }
+}
+impl Partition {
+    #[verifier::external_body]
+    pub fn create(stream_id: u32, topic_id: u32, partition_id: u32, with_segment: bool, config: SystemConfig, storage: SystemStorage,
+        message_expiry: IggyExpiry, messages_count_of_parent_stream: SharedCounter, messages_count_of_parent_topic: SharedCounter,
+        size_of_parent_stream: SharedCounter, size_of_parent_topic: SharedCounter, segments_count_of_parent_stream: SharedCounter,
+        created_at: IggyTimestamp) -> (r: Partition)
+    { unimplemented!() }
+}
+// partitions are numbered 1..=n without holes (added and removed at the high end)
+pub open spec fn parts_wf(t: &Topic) -> bool {
+    &&& t.partitions@.dom().finite()
+    &&& t.partitions@.len() <= MAX_PARTITIONS_COUNT
+    &&& forall|k: u32| #[trigger] t.partitions@.contains_key(k) <==> 1 <= k <= t.partitions@.len()
 }
